@@ -9,6 +9,9 @@ import (
 
 const NTemplates = 8
 
+// NFileTemplates file-passing skeletons follow the NTemplates dataflow ones.
+const NFileTemplates = 3
+
 func ref(call string, path ...string) *Exp { return &Exp{Kind: ERefCall, Id: call, Path: path} }
 func self(id string, path ...string) *Exp  { return &Exp{Kind: ERefSelf, Id: id, Path: path} }
 func lit(i int64) *Exp                      { return &Exp{Kind: EInt, I: i} }
@@ -185,6 +188,38 @@ func Template(kind int, seed int64, cfg *Config) *Program {
 			},
 			Ret: []Binding{{Id: "yi", Exp: ref("M1", "yi")}}}
 		p.Pipelines = []*Pipeline{inner, top}
+	case 8, 9, 10:
+		// file-passing skeletons: a stage mapped over a run-time sized
+		// collection writes files;
+		//  8: the files are only returned from the top level (no stage consumes them)
+		//  9: the files are only named by a pipeline retain
+		// 10: the files are consumed by a second mapped stage and returned
+		sf := &Struct{Name: "SF", Fields: []Param{{Name: "f", Type: TFile}, {Name: "n", Type: TInt}}}
+		p.Structs = append(p.Structs, sf)
+		tsf := &Type{Kind: KStruct, Name: "SF"}
+		geni := src(&Stage{Name: "GENI", Ins: []Param{{Name: "seed", Type: TInt}}, Outs: []Param{{Name: "arr", Type: wrap(TInt)}}})
+		mk := src(&Stage{Name: "MK", Ins: []Param{{Name: "x", Type: TInt}}, Outs: []Param{{Name: "f", Type: TFile}, {Name: "s", Type: tsf}, {Name: "fs", Type: ArrayOf(TFile)}}})
+		cons := src(&Stage{Name: "CONS", Ins: []Param{{Name: "f", Type: TFile}, {Name: "s", Type: tsf}}, Outs: []Param{{Name: "y", Type: TInt}}})
+		p.Stages = []*Stage{geni, mk, cons}
+		top := &Pipeline{Name: "TOP",
+			Calls: []*Call{
+				{Callee: "GENI", Binds: []Binding{{Id: "seed", Exp: lit(s1)}}},
+				{Callee: "MK", Map: true, Volatile: g.pct(50), Binds: []Binding{{Id: "x", Exp: ref("GENI", "arr"), Split: true}}},
+			}}
+		switch kind {
+		case 8:
+			top.Outs = []Param{{Name: "f", Type: wrap(TFile)}, {Name: "s", Type: wrap(tsf)}, {Name: "fs", Type: wrap(ArrayOf(TFile))}}
+			top.Ret = []Binding{{Id: "f", Exp: ref("MK", "f")}, {Id: "s", Exp: ref("MK", "s")}, {Id: "fs", Exp: ref("MK", "fs")}}
+		case 9:
+			top.Outs = []Param{{Name: "n", Type: wrap(TInt)}}
+			top.Ret = []Binding{{Id: "n", Exp: ref("GENI", "arr")}}
+			top.Retain = []*Exp{ref("MK", "f"), ref("MK", "fs")}
+		case 10:
+			top.Calls = append(top.Calls, &Call{Callee: "CONS", Map: true, Binds: []Binding{{Id: "f", Exp: ref("MK", "f"), Split: true}, {Id: "s", Exp: ref("MK", "s"), Split: true}}})
+			top.Outs = []Param{{Name: "f", Type: wrap(TFile)}, {Name: "y", Type: wrap(TInt)}}
+			top.Ret = []Binding{{Id: "f", Exp: ref("MK", "f")}, {Id: "y", Exp: ref("CONS", "y")}}
+		}
+		p.Pipelines = []*Pipeline{top}
 	}
 	if p.Top == nil {
 		p.Top = &Call{Callee: "TOP"}
